@@ -52,7 +52,74 @@ def analyse_fn(fn, secret_params=None):
             elif any(labels_of(a, der, None) for a in i.get("args", ())) and fn.prog_resolve(cal) is None and \
                     not cal.startswith("llvm.") and "constraint_handler" not in cal:
                 viol.append(("secret region handed to external %s (timing not analysable)" % cal, i))
+    analyse_fn.last_taint = t
     return len(src), len(t), viol
+
+
+def _tybits(ty):
+    try:
+        return int(ty[1:]) if ty.startswith("i") else 64
+    except ValueError:
+        return 64
+
+
+def narrowing_rule(fn, tainted):
+    """clause: the verdict is computed from the *whole* accumulated difference.  A truncation of a secret-derived value that can have
+    significant bits above the width it is truncated to loses every difference that shows only in those bits (the functions then answer
+    'equal' for unequal regions).  Significant bits: a load has its own width, zext keeps the operand's, or/xor/phi take the maximum, and
+    the minimum, shl adds, lshr subtracts, add one more than the maximum; anything else (sub, mul, sext, calls) may fill its type.
+    Returns (number of truncations of secret-derived values looked at, [(instruction, operand bits, result bits)])."""
+    width = {}
+
+    def w(o):
+        if o.get("k") == "c":
+            v = o.get("v", 0)
+            return _tybits(o.get("ty", "i%d" % o.get("bits", 64))) if v < 0 else max(1, int(v).bit_length())
+        if o.get("k") != "v":
+            return 64
+        return width.get(o["id"], 0)
+    for _ in range(6):                                  # ascending fixpoint; widths are bounded by the type
+        for i in fn.insts():
+            if "id" not in i or not i.get("ty", "").startswith("i"):
+                continue
+            tb = _tybits(i["ty"])
+            op = i["op"]
+            if op == "load":
+                r = tb
+            elif op == "zext":
+                r = w(i["ops"][0])
+            elif op == "sext":
+                ob = _tybits(i["ops"][0].get("ty", "i32"))
+                r = w(i["ops"][0]) if w(i["ops"][0]) < ob else tb          # the sign bit of the operand is known to be 0: same as zext
+            elif op == "trunc":
+                r = min(tb, w(i["ops"][0]))
+            elif op in ("or", "xor"):
+                r = max(w(i["ops"][0]), w(i["ops"][1]))
+            elif op == "and":
+                r = min(w(i["ops"][0]), w(i["ops"][1]))
+            elif op == "phi":
+                r = max([w(x["v"]) for x in i["incoming"]] or [0])
+            elif op == "select":
+                r = max(w(i["ops"][1]), w(i["ops"][2]))
+            elif op == "shl" and i["ops"][1].get("k") == "c":
+                r = w(i["ops"][0]) + i["ops"][1]["v"]
+            elif op == "lshr" and i["ops"][1].get("k") == "c":
+                r = max(0, w(i["ops"][0]) - i["ops"][1]["v"])
+            elif op == "add":
+                r = max(w(i["ops"][0]), w(i["ops"][1])) + 1
+            elif op == "icmp":
+                r = 1
+            else:
+                r = tb
+            width[i["id"]] = min(tb, max(width.get(i["id"], 0), r))
+    seen, bad = 0, []
+    for i in fn.insts():
+        if i["op"] == "trunc" and i["ops"][0].get("k") == "v" and i["ops"][0]["id"] in tainted:
+            seen += 1
+            ob, rb = width.get(i["ops"][0]["id"], 64), _tybits(i["ty"])
+            if ob > rb:
+                bad.append((i, ob, rb))
+    return seen, bad
 
 
 RESULT_SPEC = {"_timingsafe_bcmp_chk": "zero-iff-equal", "_timingsafe_memcmp_chk": "sign-of-first-difference",
@@ -114,6 +181,14 @@ def run(ck):
                 ck.report("C19:%s:%s:%s" % (name, kind.split(" passed to ")[0].replace(" ", "-"), ol), "T-secret-independent", fn.loc(i),
                           "%s (%s IR): %s at %s" % (name, ol, kind, fn.loc(i)), dict(inst={k: v for k, v in i.items() if not k.startswith("_")}))
             ck.sample(dict(function=name, opt=ol, secret_loads=nsrc, tainted_values=nt, sinks_checked=ninst, verdict="no tainted sink" if not viol else "VIOLATION"))
+            narrowed = []
+            if ol == "O0":
+                ntr, narrowed = narrowing_rule(fn, analyse_fn.last_taint)
+                per["%s@%s" % (name, ol)]["truncations_of_secret_values"] = ntr
+                for (ti, ob, rb) in narrowed:
+                    ck.report("C19:%s:difference-narrowed:%d-to-%d" % (name, ob, rb), "R-result-from-the-whole-difference", fn.loc(ti),
+                              "%s: a value derived from the compared bytes with up to %d significant bits is truncated to %d bits on the way to the verdict: regions that differ only in the dropped bits compare as equal"
+                              % (name, ob, rb))
             if ol == "O0":
                 try:
                     nst, bad = result_rule(fn, RESULT_SPEC[name])
@@ -121,7 +196,11 @@ def run(ck):
                     for k_, b_ in enumerate(bad):
                         ck.report("C19:%s:wrong-result#%d" % (name, k_), "R-result-from-relations", "%s:%s" % (fn.file, fn.line), "%s: %s" % (name, b_))
                 except relval.Undecidable as e:
-                    if viol and "conditional branch" in str(e):
+                    if narrowed:
+                        # the shape relval cannot interpret (word-wise accumulation) is the one whose verdict the narrowing clause just
+                        # judged: reported above, not 'analysis broken' on top
+                        per["%s@%s" % (name, ol)]["result_clause"] = dict(not_interpreted="%s; the verdict is reported by the narrowing clause" % e)
+                    elif viol and "conditional branch" in str(e):
                         # the loop body branches on the compared data: that is the violation of the first clause reported above, and the reason
                         # why the result clause has nothing to interpret -- not a second, 'analysis broken' verdict
                         per["%s@%s" % (name, ol)]["result_clause"] = dict(not_interpreted="the loop body branches on data (reported by the data-independence clause)")
@@ -160,4 +239,12 @@ def selftest(ck):
         out["%s:result" % name] = len(bad)
         if bool(bad) != want:
             ck.fail_broken("fixture c19.c:%s: result rule %s" % (name, "did not fire" if want else "fired on conforming code: %s" % bad[0]))
+    for name, want in (("words_narrowed", True), ("words_whole", False), ("bytes_in_long", False), ("good_bcmp", False), ("good_memcmp", False)):
+        fn = prog.funcs[name]
+        fn.prog_resolve = lambda c, fn=fn, prog=prog: prog.resolve(fn, c) if c else None
+        analyse_fn(fn, [p["id"] for p in fn.j["params"] if p["name"] in ("b1", "b2")])
+        ntr, nar = narrowing_rule(fn, analyse_fn.last_taint)
+        out["%s:narrowing" % name] = dict(truncations=ntr, reported=len(nar))
+        if bool(nar) != want:
+            ck.fail_broken("fixture c19.c:%s: narrowing rule %s" % (name, "did not fire" if want else "fired on conforming code"))
     return out
